@@ -859,6 +859,19 @@ func (*Stream).compileOutputNames
   loop 2 step the-name-recorded-for-a-field-is-the-one-the-shared-rule-gives: s.groupOutputNames[$i - 1] == $outName
   loop 3 invariant forall(a, 0, len(s.groupOutputNames), forall(b, 0, len(s.groupOutputNames), a != b ==> s.groupOutputNames[a] != s.groupOutputNames[b]))
 
+// the state constructors of a field are worked out from the field; nothing under contract is written
+extern buildStateCtors
+  props C14 C12 C20 C05
+
+// every analytic field of a query gets an engine of its own: its own partitions, its own recency list and its own memory
+// of the last result per partition (two fields never share any of them), built for that field, in the order written
+func NewAnalyticEngine
+  props C14 C12 C20 C05
+  ensures no-analytic-field-no-engine: len(fields) == 0 ==> result0 == nil && result1 == nil
+  loop 1 invariant forall(a, 0, len(engines), engines[a] != nil && allocated(engines[a]) && allocated(engines[a].lastResults) && allocated(engines[a].partitions))
+  loop 1 step each-field-gets-an-engine-built-for-it: len(engines) == prev(len(engines)) + 1 && engines[len(engines) - 1].af == $s[$i - 1] && forall(a, 0, len(engines) - 1, engines[a] == prev(engines)[a])
+  loop 1 step the-new-engines-memory-of-last-results-and-its-partitions-are-shared-with-no-earlier-field: forall(a, 0, len(engines) - 1, engines[a].lastResults != engines[len(engines) - 1].lastResults && engines[a].partitions != engines[len(engines) - 1].partitions && engines[a] != engines[len(engines) - 1])
+
 // the fallback of a SELECT expression (no compiled info): the column is always written, and only it; a call goes to the
 // bridge with the IS NULL / LIKE rewriting of the expression's own text and this row; a dotted non-call expression
 // goes to the hand-written engine on this row; anything else tries the bridge first and the engine only when the
